@@ -542,6 +542,10 @@ pub struct DriveResult {
     pub fired: std::collections::BTreeMap<&'static str, u64>,
     pub makespan: Vec<u64>,
     pub wakes_stale: u64,
+    /// per run: the executed schedule obeyed the virtual-time discipline (poll to
+    /// quiescence, then complete the function with the earliest virtual finish
+    /// time; no spurious poll, no event inside a poll)
+    pub vt_ok: Vec<bool>,
 }
 
 /// Drives `specs` (all simultaneously) on the given graph.
@@ -552,6 +556,53 @@ pub fn drive<'g>(
     specs: &[RunSpec],
     scheduler: Box<dyn Scheduler>,
     autostart: bool,
+) -> DriveResult {
+    let coop = specs.iter().any(|s| s.coop);
+    if coop {
+        // The whole simulation is the single task of a current-thread runtime, so that
+        // tokio's cooperative budget (128 operations per task poll) is in force inside
+        // the library's polls.  No timer, no I/O driver, no second task: deterministic.
+        thread_local! {
+            static RT: tokio::runtime::Runtime =
+                tokio::runtime::Builder::new_current_thread().build().expect("harness: runtime");
+        }
+        RT.with(|rt| rt.block_on(drive_async(graph, built, specs, scheduler, autostart, true)))
+    } else {
+        let mut fut = Box::pin(drive_async(graph, built, specs, scheduler, autostart, false));
+        let waker = futures::task::noop_waker();
+        let mut cx = Context::from_waker(&waker);
+        match fut.as_mut().poll(&mut cx) {
+            Poll::Ready(r) => r,
+            Poll::Pending => panic!("harness: the simulator loop yielded outside coop mode"),
+        }
+    }
+}
+
+/// Returns control to the enclosing runtime once (coop mode): the task budget is
+/// refreshed and deferred wake-ups are delivered.
+#[derive(Default)]
+struct YieldNow(bool);
+
+impl Future for YieldNow {
+    type Output = ();
+    fn poll(mut self: Pin<&mut Self>, cx: &mut Context<'_>) -> Poll<()> {
+        if self.0 {
+            Poll::Ready(())
+        } else {
+            self.0 = true;
+            cx.waker().wake_by_ref();
+            Poll::Pending
+        }
+    }
+}
+
+async fn drive_async<'g>(
+    graph: &'g mut G,
+    built: &Built,
+    specs: &[RunSpec],
+    scheduler: Box<dyn Scheduler>,
+    autostart: bool,
+    coop: bool,
 ) -> DriveResult {
     assert!(specs.len() <= MAX_RUNS);
     let n = built.n;
@@ -572,6 +623,7 @@ pub fn drive<'g>(
     let caps = Caps::for_n(n);
     let mut steps = 0usize;
     let mut makespan = vec![0u64; specs.len()];
+    let mut vt_ok = vec![true; specs.len()];
 
     // exclusive or shared access
     let mut excl: Option<&'g mut G> = None;
@@ -820,12 +872,30 @@ pub fn drive<'g>(
         };
         debug_assert!(views.iter().any(|v| v.run == r && v.actions.contains(&action)));
 
+        // ---- virtual-time discipline bookkeeping --------------------------------
+        if let Some(v) = views.iter().find(|v| v.run == r) {
+            match action {
+                Action::Release(_) | Action::DropRef(_) => {
+                    if v.woken || v.vt_next != Some(action) {
+                        vt_ok[r] = false;
+                    }
+                }
+                Action::Poll => {
+                    if !v.woken {
+                        vt_ok[r] = false;
+                    }
+                }
+                Action::Start => {}
+                _ => vt_ok[r] = false,
+            }
+        }
+
         // ---- perform --------------------------------------------------------
         w.mid_buf.borrow_mut().clear();
         match action {
             Action::Start => start_run!(r),
             Action::Poll => {
-                poll_run(&w, &mut roots, r, built, &mut makespan);
+                poll_run(&w, &mut roots, r, built, &mut makespan, coop).await;
             }
             Action::Release(_) | Action::Interrupt | Action::DropSender | Action::DropRef(_) | Action::ForgetRef(_) => {
                 if matches!(action, Action::Interrupt) {
@@ -871,6 +941,9 @@ pub fn drive<'g>(
             }
         }
         let mids = std::mem::take(&mut *w.mid_buf.borrow_mut());
+        if !mids.is_empty() {
+            vt_ok[r] = false;
+        }
         w.schedule.borrow_mut().push(Step {
             run: r,
             action,
@@ -932,6 +1005,7 @@ pub fn drive<'g>(
         fired,
         makespan,
         wakes_stale,
+        vt_ok,
     }
 }
 
@@ -950,7 +1024,14 @@ fn finish_run(w: &Rc<World>, roots: &mut [Root<'_>], r: usize) {
     }
 }
 
-fn poll_run<'g>(w: &Rc<World>, roots: &mut [Root<'g>], r: usize, built: &Built, makespan: &mut [u64]) {
+async fn poll_run<'g>(
+    w: &Rc<World>,
+    roots: &mut [Root<'g>],
+    r: usize,
+    built: &Built,
+    makespan: &mut [u64],
+    coop: bool,
+) {
     let cell = &w.cells[r];
     let spurious = cell.woken.get() == 0;
     if spurious {
@@ -993,6 +1074,15 @@ fn poll_run<'g>(w: &Rc<World>, roots: &mut [Root<'g>], r: usize, built: &Built, 
     };
     w.polling.set(None);
     drop(waker);
+    if coop {
+        // wake-ups deferred by an exhausted budget are delivered when the runtime gets
+        // control; only then is "no wake-up outstanding" meaningful
+        let before = cell.woken.get();
+        YieldNow::default().await;
+        if cell.woken.get() > before {
+            w.fire("coop_budget_exhausted");
+        }
+    }
     match res {
         Err(p) => {
             w.push(Ev::Poll { run: r, ready: false });
